@@ -94,6 +94,16 @@ Section S.
     apply N.eqb_eq in C. rewrite <- X. exact C.
   Qed.
 
+  Theorem validb_short_l1_sound :
+    validb_short_l1 rd h = true ->
+    (forall c, stored rd h c = refs rd h c) /\ (forall c, In c (copied_refs rd h) -> refs rd h c = 1).
+  Proof.
+    unfold validb_short_l1. intros V. apply andb_prop in V as [V C]. apply andb_prop in V as [V E]. apply andb_prop in V as [Hs _].
+    pose proof (refcounts_exact_sound (rbe_pos Hs) E) as X. split; [exact X|].
+    intros c Hc. unfold copied_single in C. rewrite forallb_forall in C. specialize (C c Hc).
+    apply N.eqb_eq in C. rewrite <- X. exact C.
+  Qed.
+
   (* C04: a file accepted by safeb has no under-counted cluster at all *)
   Theorem safeb_sound : safeb rd h = true -> forall c, refs rd h c <= stored rd h c.
   Proof.
